@@ -28,6 +28,11 @@ def main(argv):
                                prefixes=getattr(mod, "ANCHOR_PREFIX", ()))
         if tier == "thorough":
             core.leancheck(chk)
+        try:
+            from . import tiecov
+            chk.extra["tie_coverage"] = tiecov.coverage(pid)
+        except Exception as e:       # a report, never a verdict
+            chk.extra["tie_coverage"] = dict(error=str(e)[:200])
         mod.run(chk)
         return chk.finish()
     except core.InfraError as e:
